@@ -81,44 +81,53 @@ func paramOf(req interface{}) int {
 }
 
 // ---- line.Line
-type exLine struct {
-	l      *line.Line
-	wg     *sync.WaitGroup
+// shareReg: call-context values that outlive one executor instance (class shared-callctx): one line.CallCtx per owner, one
+// mline.CallCtx per key, and the callees the shared Call functions dispatch to
+type shareReg struct {
 	mu     sync.Mutex
-	ccs    map[int]*line.CallCtx // one CallCtx value per owner, reused across that owner's submissions
-	bodies map[int]bodyFn        // the shared Call function finds the callee by the parameter it is handed
+	ccs    map[int]*line.CallCtx  // one CallCtx value per owner, reused across that owner's submissions
+	mcs    map[int]*mline.CallCtx // one CallCtx value per key (fixed hash), reused on every instance
+	bodies map[int]bodyFn         // the shared Call function finds the callee by the parameter / context it is handed
+}
+
+func newShareReg() *shareReg {
+	return &shareReg{ccs: map[int]*line.CallCtx{}, mcs: map[int]*mline.CallCtx{}, bodies: map[int]bodyFn{}}
+}
+
+type exLine struct {
+	l   *line.Line
+	wg  *sync.WaitGroup
+	reg *shareReg
 }
 
 // CallOwned: the owner re-submits its one CallCtx value with a new Param (exported fields, plain caller-side reuse; legal as
 // soon as the owner's previous AsyncCall has returned - the executor is documented to take function and param, not the value).
 func (e *exLine) CallOwned(ctx context.Context, id int, owner int, body bodyFn) (interface{}, error) {
-	e.mu.Lock()
-	if e.ccs == nil {
-		e.ccs, e.bodies = map[int]*line.CallCtx{}, map[int]bodyFn{}
-	}
-	cc := e.ccs[owner]
+	r := e.reg
+	r.mu.Lock()
+	cc := r.ccs[owner]
 	if cc == nil {
 		cc = line.NewCallCtx(func(_ context.Context, req interface{}) (interface{}, error) {
 			p := paramOf(req)
-			e.mu.Lock()
-			b := e.bodies[p]
-			e.mu.Unlock()
+			r.mu.Lock()
+			b := r.bodies[p]
+			r.mu.Unlock()
 			if b == nil {
 				return -1, nil
 			}
 			return b(0, p)
 		}, id)
-		e.ccs[owner] = cc
+		r.ccs[owner] = cc
 	}
-	e.bodies[id] = body
-	e.mu.Unlock()
+	r.bodies[id] = body
+	r.mu.Unlock()
 	cc.Param = id
 	return e.l.AsyncCall(ctx, cc)
 }
 
 func newExLine(q int) *exLine {
 	wg := &sync.WaitGroup{}
-	return &exLine{l: line.NewLine(wg, line.WithQSize(q), line.WithName("c14")), wg: wg}
+	return &exLine{l: line.NewLine(wg, line.WithQSize(q), line.WithName("c14")), wg: wg, reg: newShareReg()}
 }
 func (e *exLine) Run()  { e.l.Run() }
 func (e *exLine) Stop() { e.l.Stop() }
@@ -131,10 +140,41 @@ func (e *exLine) WaitExit()            { e.wg.Wait() }
 func (e *exLine) IndexOf(hash int) int { return 0 }
 
 // ---- mline.MultiLine
-type exMulti struct{ m *mline.MultiLine }
+type exMulti struct {
+	m   *mline.MultiLine
+	reg *shareReg
+}
 
 func newExMulti(lanes, q int) *exMulti {
-	return &exMulti{m: mline.NewMultiLine(pipe.WithSlotSize(lanes), pipe.WithQSize(q))}
+	return &exMulti{m: mline.NewMultiLine(pipe.WithSlotSize(lanes), pipe.WithQSize(q)), reg: newShareReg()}
+}
+
+// CallShared: the call goes through the ONE mline.CallCtx value of this key (prepared once with NewCallCtx, fields
+// unexported: the value is immutable for the caller and may be handed to any MultiLine any number of times).  Function and
+// parameter are those of the value; the callee learns which submission it runs for from the context it is passed.
+func (e *exMulti) CallShared(ctx context.Context, id int, key int, hash int, body bodyFn) (interface{}, error) {
+	r := e.reg
+	r.mu.Lock()
+	cc := r.mcs[key]
+	if cc == nil {
+		cc = mline.NewCallCtx(hash, func(c context.Context, sIndex int, _ interface{}) (interface{}, error) {
+			oc, ok := c.(*obsCtx)
+			if !ok {
+				return -1, nil
+			}
+			r.mu.Lock()
+			b := r.bodies[oc.id]
+			r.mu.Unlock()
+			if b == nil {
+				return -1, nil
+			}
+			return b(sIndex, -1)
+		}, nil)
+		r.mcs[key] = cc
+	}
+	r.bodies[id] = body
+	r.mu.Unlock()
+	return e.m.AsyncCall(ctx, cc)
 }
 func (e *exMulti) Run()  { e.m.Run() }
 func (e *exMulti) Stop() { e.m.Stop() }
